@@ -38,7 +38,8 @@ def required_cells(tier):
     return (['outcome:' + k for k in gm.OUTCOMES] + ['cmd:all', 'cmd:list', 'cmd:named', 'cmd:named-disabled',
             'style:google', 'style:freeform', 'style:auto', 'verbose:0', 'verbose:1', 'verbose:2', 'verbose:3',
             'cli:exit0', 'cli:exit1', 'cli:list', 'mix:only-skipped', 'mix:last-fails', 'mix:disabled+failing',
-            'printed-failed-list:empty', 'printed-failed-list:one', 'printed-failed-list:several'])
+            'printed-failed-list:empty', 'printed-failed-list:one', 'printed-failed-list:several',
+            'module-import-fails'])
 
 
 def read_marks(path):
@@ -114,6 +115,17 @@ def check_module(ctx, idx, seed, cli=False):
     elif idx % 4 == 0:
         kinds = [k for k, v in gm.OUTCOMES.items() if v[1] != 'failed']
     om = gm.outcome_module(rng, '%dx%d' % (ctx.seed, idx), layout=layout, kinds=kinds)
+    if idx % 8 == 3:
+        # the module parses but cannot be imported: every doctest with something to run fails at the import, those
+        # with nothing to run (comments only, everything skipped) are still skipped, and no doctest code executes
+        om.src += '\nimport xv_no_such_module_%d_zz\n' % idx
+        for t in om.tests:
+            if t['outcome'] in ('passed', 'failed'):
+                t['outcome'] = 'failed'
+            if t['outcome'] == 'disabled':
+                t['body_fails_at_import'] = True        # (run by name, a force-disabled doctest has the outcome of its body)
+            t['marks'] = False
+        ctx.cell('module-import-fails')
     modname = 'tm_%d_%d_%d_zz' % (ctx.seed, ctx.shard, idx)
     path = os.path.join(ctx.tmp, modname + '.py')
     markfile = os.path.join(ctx.tmp, modname + '.marks')
@@ -203,7 +215,7 @@ def check_module(ctx, idx, seed, cli=False):
         marks2 = read_marks(markfile)
         exp2 = [t['id']] if t['marks'] else []
         # a force-disabled doctest run by name has the outcome of its body
-        named_fails = t['outcome'] == 'failed' or (t['kind'] == 'disabled')
+        named_fails = t['outcome'] == 'failed' or (t['kind'] == 'disabled') or t.get('body_fails_at_import', False)
         if rs2.get('n_total') != 1 or marks2 != exp2:
             bad('named-run', "naming %s (%s) ran %r doctest(s) and executed ids %r, expected exactly that one (%r)" % (
                 t['ident'], t['kind'], rs2.get('n_total'), marks2, exp2))
